@@ -37,6 +37,7 @@ REQUIRED_OBS = ["heartbeats_compared", "timeout_resets_predicted_and_seen",
                 "ticks_while_link_down", "heartbeats_after_a_skipped_tick", "chatter_frames",
                 "initialised_after_init_gave_up",
                 "tick_with_full_queue"]
+SOAK = True   # also judged by the whole-run monitors of the soak sessions (vf/soak.py)
 BUDGET = {"quick": 100, "thorough": 1500}
 
 N = 12
